@@ -1465,15 +1465,17 @@ class FileHashStore(HashStore):
             self._synchronize_referenced_locked_pids(pid)
             self._synchronize_object_locked_cids(cid)
 
-            try:
-                # Prepare files and paths
-                tmp_root_path = self._get_store_path("refs") / "tmp"
-                pid_refs_path = self._get_hashstore_pid_refs_path(pid)
-                cid_refs_path = self._get_hashstore_cid_refs_path(cid)
-                # Create paths for pid ref file in '.../refs/pid' and cid ref file in '.../refs/cid'
-                self._create_path(Path(os.path.dirname(pid_refs_path)))
-                self._create_path(Path(os.path.dirname(cid_refs_path)))
+            # Prepare files and paths
+            tmp_root_path = self._get_store_path("refs") / "tmp"
+            pid_refs_path = self._get_hashstore_pid_refs_path(pid)
+            cid_refs_path = self._get_hashstore_cid_refs_path(cid)
+            # Create paths for pid ref file in '.../refs/pid' and cid ref file in '.../refs/cid'
+            # (before the tagging process begins: a failure here has nothing to revert, and
+            # reverting would untag a pid that is already tagged with this cid)
+            self._create_path(Path(os.path.dirname(pid_refs_path)))
+            self._create_path(Path(os.path.dirname(cid_refs_path)))
 
+            try:
                 if os.path.isfile(pid_refs_path) and os.path.isfile(cid_refs_path):
                     # If both reference files exist, we confirm that reference files are where they
                     # are expected to be and throw an exception to inform the client that everything
